@@ -717,7 +717,7 @@ func mutate(r *tr.Rand, alpha []string, lhs []string) []string {
 	return out
 }
 
-const rule = "C13: ROUND 5 (V/VC lines, round5.go): Left and Right as two windows arr[i:j], arr[p:q] of ONE backing array - every array over two symbols up to length 4 (thorough 5) with every pair of windows, plain and capacity-clipped slice expressions, rhs := append(lhs, ...) performed within lhs's spare capacity and its mirror image, New(s, s[:k]), New(s[:k], s), New(s, s[k:]), New(s[k:], s) for every length of s up to 300, random arrays, windows and histories, every fifth line with the Diff rebuilt as a struct literal from copies of its exported fields; the model predicts the line from the texts of the two windows, and the whole array (sentinels included), both arguments and d.Left/d.Right are compared with copies after the chunks' edits were overwritten. BOTH LENGTHS SWEPT (S lines): Left of L lines against Right of L, L-1, L+1, 2L lines sharing exactly one line or a run of L/2 lines, every L up to 300 (600). ROUND 4: (PD/PU lines, each self-contained) a history case run after an earlier call in the same process - another diff (much larger, tiny, the same texts, the texts swapped, structured) under its own calls, or UnifyChunks on an arbitrary chunk list (a fifth panic) - whose result is spelled before and after the case and must not have changed. COLLIDING LINES from corpus/common/hash-collisions.tsv (FNV-1a/FNV-1 32, CRC-32, Adler-32, djb2, 31-polynomial hashes; each pair checked against its hash when the generator starts) and lines equal up to case, surrounding blanks, Unicode normalisation, numeric value, byte order: as the two symbols of ten templates (one in Left where Right has the other, alone in the files, next to each other and swapped, both deleted, both inserted, one the context of a change to the other, crosswise, at both ends, alternating, at the very end) under the pipeline for n = 0..2 and under histories, and of every pair of sequences up to length 3 (thorough 4). EXTREME CONTEXT ARGUMENTS MaxInt, MaxInt-1, -2, -7, -40, 2^62 and 2^62+-1, MaxInt/2 and +1, 2^40, 2^32 and -1, 2^31 and -1, 2^16, MinInt, MinInt+1, -2^62, -2^31, -2 on every pair of 2-symbol sequences up to length 3 (4) in the pipeline and in four histories (twice, after AddContext(1), around a Unify), and on structured and repetitive texts with n = MaxInt - r for r up to the file length (the sums prevEnd+n and c.LEnd+n wrap for the later chunks only). EVERY VALUE 0..600 (S lines, thorough 800) of: the argument n with exactly n of n+1 lines in front of the change, the size of one change (dropped / inserted / replaced); and for every value 0..272 (the extracted model of findContext costs n x file length per context, a sweep costs the cube of its bound; thorough 800): a trailing context cut by the end of the file and one of exactly n lines, two changes v lines apart under AddContext(v) (whole context removed), AddContext(v-1) (trimmed by v-2 lines), AddContext((v+1)/2) (contexts abut); 1..128 changes two lines apart; a run of 1..128 equal lines behind a dropped copy; n within the file length of MaxInt deep in a 1500-line file. THEN, as before: New(lhs, rhs).AddContext(n).Unify() on every pair of line sequences of length <= 5 over 2 symbols for every n in 0..3 (15876 cases, every run); every pair of length <= 3 (quick) / 4 (thorough) over 3 symbols, n in 0..3; random repetitive texts (a short block repeated with disturbances), random texts, and texts derived from one another by a few local edits (long common runs), lengths up to 40, alphabets of 2-4 lines including the empty line, n from {0,1,2,3,5,8,100} (n larger than every gap). The edit script slice.EditScript returned is recorded with the input (oracle) and compared with d.Edits; every fourth case carries no oracle and is predicted by the composed model (model of slice.EditScript + chunk model). n also from {-1, MaxInt64, MinInt64}. HISTORIES (H/HC lines): after New, any sequence of AddContext(n_i) and Unify calls: 23 fixed sequences (Unify alone, Unify twice, AddContext twice with equal/growing/shrinking n, AddContext after Unify, Unify-AddContext-Unify, negative/zero/MaxInt64/MinInt64 n in between) on every pair of sequences of length <= 4 (quick) / 5 (thorough) over 2 symbols, and a random sequence of 2-7 calls (n from {1,2,3,4,6,0,-1,100,MaxInt64,MinInt64}) on every second random pair and on structured pairs (2-4 changed lines separated by common runs of 1-8 lines, so that several calls stack several layers of context in one gap); d.Chunks recorded after every call. ARBITRARY CHUNK LISTS (U lines): the exported UnifyChunks on 4000 (quick) / 100000 (thorough) random lists of 1-4 chunks with edits of all kinds, neighbours apart, adjacent or overlapping by more or less than the context edit at the boundary, with or without context edits on either side, some with ranges that do not fit their edits; panics (nil edit pointer, the explicit merge panic, slice bounds) are part of the compared output. A case is non-trivial when there is at least one chunk and n > 0 (pipeline) or at least two calls (history); counters say how many cases had several chunks, overlapping or adjacent chunks after AddContext, chunks merged by Unify, chunks kept apart by Unify. SCALE (S/SC lines, scale.go): texts named by a recipe (runs of common lines with all lines different / period 2 / period 3 / all equal / runs of 33 equal lines, dropped and inserted lines that occur nowhere else or are copies of the neighbouring line), outputs digested (FNV-1a 64 of the same spelling D/H lines print), the property decided by the harness on the implementation's own chunks by direct definition (line texts compared at the chunk's offsets) and reported in field P: (G) for every n in {0,1,2,3,5,8,64,255,256,257,5000} two or three changes separated by exactly n-1, n, n+1, 2n-1, 2n, 2n+1 common lines (for 5000: gaps 1..700, n larger than the file) with 0, 1, n-1, n, n+1 lines before and after, under AddContext(n)+Unify and one of: AddContext twice, Unify first and twice, AddContext(0) first, AddContext again after Unify (thorough: all); the six gaps in one text repeated up to 1500/4000 lines; (Z) Left of exactly 2^k-1, 2^k, 2^k+1 lines for k = 1..12 with one change at line 1 / in the middle / at the very end (dropped or inserted), two changes at both ends, three, and many changes (one every 2, 3, 4 lines, up to 1025 chunks), n rotating through the same list; quick runs every variant below 200 lines and a seed-rotated selection above (slice.EditScript is quadratic and 40 times dearer on equal lines), thorough all; (R) 40/600 random texts of random such gaps under random histories. After the last call of every D, H and S line every slot of every Chunks[i].Edits up to its capacity and the line texts of the context edits are overwritten before d.Edits and the inputs are compared with their copies."
+const rule = "C13: ROUND 6 (S lines, round6.go): constructed LARGE texts of 1100 x 2200 and 4100 x 4101 lines (above 2^20 and 2^24 pairs of lines; thorough: lengths around the square roots of 2^20 .. 2^24, thin-against-long pairs) made of blocks of different lines -- a block behind / in front of / in the middle of the common lines, the common lines between two blocks or split between both ends, the last / first three lines replaced, ONE line inserted into a run of 1, 2, 5 identical lines (the common prefix and suffix of the inputs overlap), x y x y -> x y, one of two adjacent empty lines removed, a line doubled -- and the mirror image of each, under New alone and AddContext(0, 1, 3) + Unify. ROUND 5 (V/VC lines, round5.go): Left and Right as two windows arr[i:j], arr[p:q] of ONE backing array - every array over two symbols up to length 4 (thorough 5) with every pair of windows, plain and capacity-clipped slice expressions, rhs := append(lhs, ...) performed within lhs's spare capacity and its mirror image, New(s, s[:k]), New(s[:k], s), New(s, s[k:]), New(s[k:], s) for every length of s up to 300, random arrays, windows and histories, every fifth line with the Diff rebuilt as a struct literal from copies of its exported fields; the model predicts the line from the texts of the two windows, and the whole array (sentinels included), both arguments and d.Left/d.Right are compared with copies after the chunks' edits were overwritten. BOTH LENGTHS SWEPT (S lines): Left of L lines against Right of L, L-1, L+1, 2L lines sharing exactly one line or a run of L/2 lines, every L up to 300 (600). ROUND 4: (PD/PU lines, each self-contained) a history case run after an earlier call in the same process - another diff (much larger, tiny, the same texts, the texts swapped, structured) under its own calls, or UnifyChunks on an arbitrary chunk list (a fifth panic) - whose result is spelled before and after the case and must not have changed. COLLIDING LINES from corpus/common/hash-collisions.tsv (FNV-1a/FNV-1 32, CRC-32, Adler-32, djb2, 31-polynomial hashes; each pair checked against its hash when the generator starts) and lines equal up to case, surrounding blanks, Unicode normalisation, numeric value, byte order: as the two symbols of ten templates (one in Left where Right has the other, alone in the files, next to each other and swapped, both deleted, both inserted, one the context of a change to the other, crosswise, at both ends, alternating, at the very end) under the pipeline for n = 0..2 and under histories, and of every pair of sequences up to length 3 (thorough 4). EXTREME CONTEXT ARGUMENTS MaxInt, MaxInt-1, -2, -7, -40, 2^62 and 2^62+-1, MaxInt/2 and +1, 2^40, 2^32 and -1, 2^31 and -1, 2^16, MinInt, MinInt+1, -2^62, -2^31, -2 on every pair of 2-symbol sequences up to length 3 (4) in the pipeline and in four histories (twice, after AddContext(1), around a Unify), and on structured and repetitive texts with n = MaxInt - r for r up to the file length (the sums prevEnd+n and c.LEnd+n wrap for the later chunks only). EVERY VALUE 0..600 (S lines, thorough 800) of: the argument n with exactly n of n+1 lines in front of the change, the size of one change (dropped / inserted / replaced); and for every value 0..272 (the extracted model of findContext costs n x file length per context, a sweep costs the cube of its bound; thorough 800): a trailing context cut by the end of the file and one of exactly n lines, two changes v lines apart under AddContext(v) (whole context removed), AddContext(v-1) (trimmed by v-2 lines), AddContext((v+1)/2) (contexts abut); 1..128 changes two lines apart; a run of 1..128 equal lines behind a dropped copy; n within the file length of MaxInt deep in a 1500-line file. THEN, as before: New(lhs, rhs).AddContext(n).Unify() on every pair of line sequences of length <= 5 over 2 symbols for every n in 0..3 (15876 cases, every run); every pair of length <= 3 (quick) / 4 (thorough) over 3 symbols, n in 0..3; random repetitive texts (a short block repeated with disturbances), random texts, and texts derived from one another by a few local edits (long common runs), lengths up to 40, alphabets of 2-4 lines including the empty line, n from {0,1,2,3,5,8,100} (n larger than every gap). The edit script slice.EditScript returned is recorded with the input (oracle) and compared with d.Edits; every fourth case carries no oracle and is predicted by the composed model (model of slice.EditScript + chunk model). n also from {-1, MaxInt64, MinInt64}. HISTORIES (H/HC lines): after New, any sequence of AddContext(n_i) and Unify calls: 23 fixed sequences (Unify alone, Unify twice, AddContext twice with equal/growing/shrinking n, AddContext after Unify, Unify-AddContext-Unify, negative/zero/MaxInt64/MinInt64 n in between) on every pair of sequences of length <= 4 (quick) / 5 (thorough) over 2 symbols, and a random sequence of 2-7 calls (n from {1,2,3,4,6,0,-1,100,MaxInt64,MinInt64}) on every second random pair and on structured pairs (2-4 changed lines separated by common runs of 1-8 lines, so that several calls stack several layers of context in one gap); d.Chunks recorded after every call. ARBITRARY CHUNK LISTS (U lines): the exported UnifyChunks on 4000 (quick) / 100000 (thorough) random lists of 1-4 chunks with edits of all kinds, neighbours apart, adjacent or overlapping by more or less than the context edit at the boundary, with or without context edits on either side, some with ranges that do not fit their edits; panics (nil edit pointer, the explicit merge panic, slice bounds) are part of the compared output. A case is non-trivial when there is at least one chunk and n > 0 (pipeline) or at least two calls (history); counters say how many cases had several chunks, overlapping or adjacent chunks after AddContext, chunks merged by Unify, chunks kept apart by Unify. SCALE (S/SC lines, scale.go): texts named by a recipe (runs of common lines with all lines different / period 2 / period 3 / all equal / runs of 33 equal lines, dropped and inserted lines that occur nowhere else or are copies of the neighbouring line), outputs digested (FNV-1a 64 of the same spelling D/H lines print), the property decided by the harness on the implementation's own chunks by direct definition (line texts compared at the chunk's offsets) and reported in field P: (G) for every n in {0,1,2,3,5,8,64,255,256,257,5000} two or three changes separated by exactly n-1, n, n+1, 2n-1, 2n, 2n+1 common lines (for 5000: gaps 1..700, n larger than the file) with 0, 1, n-1, n, n+1 lines before and after, under AddContext(n)+Unify and one of: AddContext twice, Unify first and twice, AddContext(0) first, AddContext again after Unify (thorough: all); the six gaps in one text repeated up to 1500/4000 lines; (Z) Left of exactly 2^k-1, 2^k, 2^k+1 lines for k = 1..12 with one change at line 1 / in the middle / at the very end (dropped or inserted), two changes at both ends, three, and many changes (one every 2, 3, 4 lines, up to 1025 chunks), n rotating through the same list; quick runs every variant below 200 lines and a seed-rotated selection above (slice.EditScript is quadratic and 40 times dearer on equal lines), thorough all; (R) 40/600 random texts of random such gaps under random histories. After the last call of every D, H and S line every slot of every Chunks[i].Edits up to its capacity and the line texts of the context edits are overwritten before d.Edits and the inputs are compared with their copies."
 
 func gen(g *tr.G) {
 	k := 0
@@ -878,6 +878,8 @@ func gen(g *tr.G) {
 	genEvery(g)
 	// ---- round 5 (round5.go): both lengths swept together
 	genTwoSided(g)
+	// ---- round 6 (round6.go): constructed large texts, above 2^20 and 2^24 pairs of lines
+	genLarge(g)
 }
 
 // replayArg returns the value of the -replay flag, if given.
